@@ -157,6 +157,10 @@ def write_replay(prop: str, meta, ent: Dict[str, Any], mini: Dict[str, Any], key
                       "key": key},
         "occurrences_in_batch": ent["count"],
         "trace": mini["trace"],
+        # runs executed in the same process before the run of interest (only present when the violation
+        # needs what they leave behind; replay executes them first, in this order)
+        "history": mini.get("history", []),
+        "minimised_history": {"before": mini.get("history_before"), "after": mini.get("history_after")},
         "minimised": {"before": mini.get("size_before"), "after": mini.get("size_after")},
         "log_digest": mini.get("digest"),
     }
@@ -298,10 +302,20 @@ def check(prop: str, tier: str, batch_seed: int, repo: str, workers: int = 16,
                 if ent["trace"].get("kind") == "cross-unresolved":
                     unconfirmed.append(f"violation {key} could not be resolved: {mini.get('note')}")
                     continue
-                print(f"[verif] note: {key} did not reproduce in its (used) worker; replaying the unminimised "
-                      f"trace in a fresh interpreter", flush=True)
-                mini = {"trace": ent["trace"], "violation": ent["v"], "size_before": None, "size_after": None,
-                        "digest": None, "key": key}
+                mini = None
+                if ent.get("chunk") and ent["index"] in ent["chunk"]:
+                    print(f"[verif] note: {key} does not reproduce from its own trace in a pristine process; "
+                          f"searching the history of its chunk", flush=True)
+                    mh = pools.pools[pi].submit(worker.minimise_history, prop, batch_seed, tier, ent["chunk"],
+                                                ent["index"], key, tcfg.get("shrink_wall", 600.0)).result(
+                                                    timeout=tcfg.get("shrink_wall", 600.0) + 30)
+                    if mh.get("shrunk"):
+                        mini = mh
+                    else:
+                        print(f"[verif] note: {mh.get('note')}", flush=True)
+                if mini is None:
+                    mini = {"trace": ent["trace"], "violation": ent["v"], "size_before": None,
+                            "size_after": None, "digest": None, "key": key}
             key = mini.get("key", key)
             if key in reported_keys:
                 continue
@@ -315,7 +329,10 @@ def check(prop: str, tier: str, batch_seed: int, repo: str, workers: int = 16,
             replays.append(path)
             print(f"[verif] violation oracle={ent['v']['oracle']} sig={json.dumps(ent['v'].get('sig', {}), sort_keys=True)} "
                   f"occurrences={ent['count']} first_run_index={ent['index']} "
-                  f"minimised {mini.get('size_before')}->{mini.get('size_after')}", flush=True)
+                  f"minimised {mini.get('size_before')}->{mini.get('size_after')}"
+                  + (f" history {mini.get('history_before')}->{mini.get('history_after')} runs"
+                     if mini.get("history") is not None and mini.get("history_before") is not None else ""),
+                  flush=True)
             print(f"[verif]   detail: {json.dumps(ent['v'].get('detail'))[:600]}", flush=True)
             print(f"VIOLATION property={prop} replay={path}", flush=True)
             status = EXIT_VIOLATION
